@@ -26,7 +26,7 @@ def run_witnesses(root):
     key = build.tree_hash(root)
     if key in _cache:
         return _cache[key]
-    wd = os.path.join(build.CACHE, "witness-%s" % key)
+    wd = os.path.join(build.CACHE, "witness-%s-%d" % (key, os.getpid()))  # per process: thorough runs of several properties may overlap
     shutil.rmtree(wd, ignore_errors=True)
     os.makedirs(os.path.join(wd, "src"))
     with open(os.path.join(VERIF, "witness", "Cargo.toml.in")) as f:
